@@ -86,7 +86,7 @@ Succ(s, ev, cs) ==
   ELSE
     CASE ev.e = "SpecGen" /\ ev.ctx = "replay" ->
            IF s.pc = "replay" /\ s.cur = ev.b
-           THEN IF ev.ok THEN [a |-> "-", n |-> {[s EXCEPT !.subs[ev.b] = Rng(ev.subs)]}]
+           THEN IF ev.ok THEN [a |-> "-", n |-> {[s EXCEPT !.subs[ev.b] = Rng(ev.subs), !.phase[ev.b] = "specgen"]}]
                 ELSE [a |-> "ReplayReject", n |-> {[s EXCEPT !.pc = "replayerr"]}]         \* the analysis raises: an error, no output
            ELSE None
       [] ev.e = "SpecGen" /\ ev.ctx \in {"cmpnew", "cmpold"} -> [a |-> "-", n |-> {s}]
@@ -100,7 +100,12 @@ Succ(s, ev, cs) ==
            CASE ev.res = "eq"  -> [a |-> "ReplayBlockOK", n |-> {Fwd(t, cs) : t \in ReplayBlockOK(s, ev.b)}]
              [] ev.res = "neq" -> [a |-> "ReplayReject", n |-> ReplayReject(s, ev.b)]
              [] OTHER          -> [a |-> "ReplayReject", n |-> IF s.pc = "replay" /\ s.cur = ev.b THEN {[s EXCEPT !.pc = "replayerr"]} ELSE {}]
-      [] ev.e = "Raise"  -> [a |-> "-", n |-> IF s.pc = "replayerr" THEN {s} ELSE {}]      \* the error reaches the caller
+      \* the error reaches the caller; an exception while a block is being rebuilt from its ids (e.g. an id that is
+      \* not an instruction of the specification) is an error outcome too: replay stops without output
+      [] ev.e = "Raise"  -> IF s.pc = "replayerr" THEN [a |-> "-", n |-> {s}]
+                            ELSE IF s.pc = "replay" /\ s.cur <= s.nb /\ s.phase[s.cur] = "specgen"     \* inside a block only
+                                 THEN [a |-> "ReplayReject", n |-> {[s EXCEPT !.pc = "replayerr"]}]
+                            ELSE None
       [] ev.e = "Finish" -> [a |-> "ReplayFinish", n |-> {t \in ReplayFinish(s) : ev.ok}]
       [] OTHER -> None
 
